@@ -170,6 +170,9 @@ func (r *runner) runInst(ci, ii int, c *tcase, raw json.RawMessage, et *etype) {
 	// ---- faults on the real bytes
 	mut := doc
 	for _, ft := range c.Faults {
+		if c.Mutated != nil {
+			break
+		}
 		var e error
 		if c.Fmt == "json" {
 			mut, e = applyJSONFault(mut, ft)
@@ -183,6 +186,9 @@ func (r *runner) runInst(ci, ii int, c *tcase, raw json.RawMessage, et *etype) {
 		if e != nil {
 			vh.Fatal(e)
 		}
+	}
+	if c.Mutated != nil {
+		mut = []byte(*c.Mutated)
 	}
 	// ---- decode
 	r.jr.at(ci, ii, "decode")
@@ -219,7 +225,7 @@ func (r *runner) runInst(ci, ii int, c *tcase, raw json.RawMessage, et *etype) {
 	}
 	// ---- fault case: error, or a well-formed object
 	r.count("faults")
-	r.judgeDamaged(c, raw, et, dec, err, pm, mut, true)
+	r.judgeDamaged(c, raw, et, dec, err, pm, mut, c.Mutated == nil)
 }
 
 // judgeDamaged implements the outcome class `error-or-wellformed`.
